@@ -3,13 +3,15 @@
 RE) against the real pycdlib.
 
 Edit histories (add_directory / rm_directory / add_fp / add_symlink / rm_file, valid and invalid, with
-directory chains of depth 7..17) are run on `PyCdlib.new(interchange_level=3, rock_ridge=VERSION)`.  After
-EVERY operation the tool records
+directory chains of depth 7..17, and "reopen" = write_fp followed by open_fp of the written bytes, after
+which the history goes on with the parsed object) are run on
+`PyCdlib.new(interchange_level=3, rock_ridge=VERSION)`.  After EVERY operation the tool records
 
     accepted?, does write_fp succeed?, and -- after a forced _reshuffle_extents() -- the PHYSICAL tree in
     breadth-first order: for every directory its path of identifiers, its extent, its number of blocks and
     its records (identifier, Rock Ridge name, flags 1 directory + 2 CL + 4 RE + 8 PL + 16 symlink, PX link
     count, extent [0 for non-directories], CL block number, PL block number [-1 when absent]).
+    (The Rock Ridge name of '.' and '..' is recorded as empty: rr.name() of a PARSED '.' record says b'.'.)
 
 At the end of a history whose image can be written, the bytes are decoded by the tiny SUSP reader in this
 file (it knows nothing of pycdlib: follows CL, skips RE, hides the root's RR_MOVED, st_nlink from '.') and
@@ -56,7 +58,8 @@ def rec_tuple(c):
     ext = c.extent_location() if (c.isdir or cl) else 0
     clv = rr.child_link_extent() if cl else -1
     plv = rr.parent_link_extent() if pl else -1
-    return (c.file_ident, rr.name(), flags, links, ext, -2 if clv is None else clv, -2 if plv is None else plv)
+    name = b'' if c.file_ident in (b'\x00', b'\x01') else rr.name()
+    return (c.file_ident, name, flags, links, ext, -2 if clv is None else clv, -2 if plv is None else plv)
 
 
 def dump(iso):
@@ -169,7 +172,7 @@ def ipath(comps):
 
 
 class Runner:
-    """ops:  ('adddir', comps, rr) ('rmdir', comps) ('addleaf', sym, comps, rr) ('rmleaf', comps)
+    """ops:  ('adddir', comps, rr) ('rmdir', comps) ('addleaf', sym, comps, rr) ('rmleaf', comps) ('reopen',)
     comps = list of identifiers (bytes), rr = bytes"""
 
     def __init__(self, version):
@@ -196,6 +199,12 @@ class Runner:
                     iso.add_fp(io.BytesIO(b'x'), 1, ipath(op[2]), rr_name=op[3].decode('latin-1'))
             elif op[0] == 'rmleaf':
                 iso.rm_file(ipath(op[1]))
+            elif op[0] == 'reopen':
+                out = io.BytesIO()
+                iso.write_fp(out)
+                out.seek(0)
+                self.iso = pycdlib.PyCdlib()
+                self.iso.open_fp(out)
             else:
                 raise ValueError(op)
             return True
@@ -272,6 +281,8 @@ def coq_op(op):
         return 'RmDir %s' % coq_path(op[1])
     if op[0] == 'addleaf':
         return 'AddLeaf %s %s %s' % (coq_bool(op[1]), coq_path(op[2]), coq_bytes(op[3]))
+    if op[0] == 'reopen':
+        return 'Reopen'
     return 'RmLeaf %s' % coq_path(op[1])
 
 
@@ -324,9 +335,13 @@ def chain_scenario(run, rng, depth):
     chain(run, rng, [], names)
     if rng.random() < 0.5:
         run.do(('adddir', names[:7] + [b'X'], b'x'))      # a second relocated sibling keeps RR_MOVED alive
+    if rng.random() < 0.5:
+        run.do(('reopen',))
     for k in range(depth, max(depth - 4, 0), -1):
         run.do(('rmdir', names[:k - 1]))                   # refused while not empty
         run.do(('rmdir', names[:k]))
+    if rng.random() < 0.5:
+        run.do(('reopen',))                                # RR_MOVED may just have disappeared
     chain(run, rng, names[:max(depth - 4, 0)], names[max(depth - 4, 0):])
 
 
@@ -338,6 +353,8 @@ def siblings_scenario(run, rng):
     for n in sibs:
         run.do(('adddir', names + [n], rrn(rng, n)))
     run.do(('adddir', names[:6] + [b'G2'], b'g2'))
+    if rng.random() < 0.5:
+        run.do(('reopen',))
     run.do(('adddir', names + [sibs[0]], b'dup'))          # duplicate: refused
     run.do(('rmdir', names))                               # not empty: refused
     run.do(('rmdir', names + [sibs[1]]))
@@ -358,6 +375,8 @@ def collide_scenario(run, rng):
     leaf = rng.choice([b'H', b'LONGNAME'])
     for t in tops[:3]:
         chain(run, rng, [], [t] + mid + [leaf])
+    if rng.random() < 0.5:
+        run.do(('reopen',))
     run.do(('adddir', [tops[0]] + mid + [leaf + b'000'], b'explicit'))
     run.do(('rmdir', [tops[1]] + mid + [leaf]))
     chain(run, rng, [], [tops[3]] + mid + [leaf])
@@ -379,6 +398,8 @@ def deep_scenario(run, rng):
     run.do(('rmleaf', names[:8]))                                    # a directory: refused
     run.do(('rmdir', names[:8] + [b'SYM.;1']))                       # a symlink: refused
     run.do(('rmleaf', names[:9] + [b'FILE.;1']))
+    if rng.random() < 0.5:
+        run.do(('reopen',))
     if len(names) == 17:
         run.do(('rmdir', names[:17]))
         run.do(('rmdir', names[:16]))
@@ -427,10 +448,12 @@ def random_history(run, rng, nops, keeper):
             par = list(rng.choice(deep))
             n = rng.choice([b'F1.;1', b'F2.;1', b'S.;1'])
             run.do(('addleaf', n == b'S.;1', par + [n], rrn(rng, n)))
-        elif sel < 0.9:
+        elif sel < 0.87:
             leaves = [p + (n,) for p in dirs for n, k in run.tree[p].items() if k == 'l']
             if leaves:
                 run.do(('rmleaf', list(rng.choice(leaves))))
+        elif sel < 0.91:
+            run.do(('reopen',))
         else:
             # invalid operations
             par = list(rng.choice(dirs))
